@@ -6,6 +6,7 @@ import impl
 
 PID = "C19"
 LEAN_MODULES = ["BtcHd.Props.C19"]
+LEAN_MODULES_THOROUGH = ['BtcHd.Props.TrVarint']
 TRUSTED_BASE = common.CORE_TRUSTED
 ASSUMPTIONS = ["io.BytesIO.read returns at most the requested bytes (short at end of input)",
                "opcode bytes 1..77 are push prefixes and are not generated as opcodes of round-trip scripts"]
